@@ -2,10 +2,10 @@
 """Collects the seeded changes written by the independent agents into /verif/seeded/<id>/ with a
 meta.json each, and prints the table of DESIGN.md section 9.5.
 
-Sources: round 1 is already under /verif/seeded/Cxx-V; rounds 2-4 live in the scratch worktrees
+Sources: round 1 is already under /verif/seeded/Cxx-V; rounds 2-5 live in the scratch worktrees
 /tmp/seedN/Cxx/OUT/{A,B} while the build session lasts and are copied to /verif/seeded/rN-Cxx-V.
-Audit logs: lines 'AUDIT <name>: <ID> exit=<rc> ...' written by tools/audit.sh. The final lean
-audit (/tmp/m8_*.log, run from a snapshot of the final harness) is authoritative; logs of earlier
+Audit logs: lines 'AUDIT <name>: <ID> exit=<rc> ...' written by tools/audit.sh. The final audits
+(/tmp/m8_*.log, /tmp/m9_*.log, /tmp/m9b_*.log, run from snapshots of the late harness) are authoritative; logs of earlier
 harness revisions are kept as 'earlier_audits'. If no scratch data is present (fresh restore) the
 script only re-reads what is already in /verif/seeded and prints the table from the meta files."""
 import glob, json, os, re, shutil, sys
@@ -38,7 +38,7 @@ def norm(name):
     return name
 
 
-final_raw, final_tests, final_demo = parse_logs(glob.glob("/tmp/m8_*.log"))
+final_raw, final_tests, final_demo = parse_logs(glob.glob("/tmp/m8_*.log") + glob.glob("/tmp/m9_*.log") + glob.glob("/tmp/m9b_*.log"))
 early_raw, early_tests, early_demo = parse_logs(
     glob.glob("/tmp/matrix_*.log") + glob.glob("/tmp/audit*.log") + glob.glob("/tmp/m2_*.log") + glob.glob("/tmp/m3_*.log") + glob.glob("/tmp/m4_*.log") + glob.glob("/tmp/m5_*.log") + glob.glob("/tmp/m6_*.log") + glob.glob("/tmp/x*.log")
 )
@@ -51,7 +51,7 @@ demo = {norm(k): v for k, v in {**early_demo, **final_demo}.items()}
 props = {json.loads(l)["id"]: json.loads(l) for l in open("/verif/properties.jsonl")}
 
 # copy rounds 2-4 from the scratch worktrees
-for rnd in (2, 3, 4):
+for rnd in (2, 3, 4, 5):
     for d in sorted(glob.glob(f"/tmp/seed{rnd}/C*/OUT/[AB]")):
         pid, var = d.split("/")[3], d.split("/")[-1]
         if not os.path.exists(f"{d}/patch.diff"):
@@ -82,7 +82,7 @@ for dst in sorted(glob.glob(f"{OUT}/*")):
             fin[c] = 2
     fin = fin or {}
     ear = early.get(name, {})
-    if not ear and "earlier_audits_caught_by" in old:
+    if not ear and rnd < 4 and "earlier_audits_caught_by" in old:
         ear = {c: True for c in old["earlier_audits_caught_by"]}
     if not ear and "quick_checks_that_report_a_violation" in old:
         ear = {c: True for c in old["quick_checks_that_report_a_violation"]}
